@@ -299,6 +299,10 @@ func RunC10(t *testing.T, tape *Tape) *Outcome {
 				setupErr = "import of the host package failed: " + err.Error()
 				return
 			}
+			// a program compiled BEFORE the definitions exist and executed (and
+			// cancelled) after them: what Compile recorded about the interpreter's
+			// global state is stale by then
+			preBusy, _ := it.Compile("for { host.Tick(1) }")
 			for j, d := range defs {
 				var err error
 				if d.viaCtx {
@@ -332,6 +336,10 @@ func RunC10(t *testing.T, tape *Tape) *Outcome {
 			}
 			after := "none"
 			afterDetail := "none"
+			// host-held wrappers are dead from a cancellation until the next
+			// evaluation refreshes the root frame's generation (recorded finding): a
+			// direct host call that fails AFTER such an evaluation is something else
+			evalSinceCancel := false
 			for si, s := range steps {
 				d := defs[s.Def]
 				switch s.Kind {
@@ -367,6 +375,7 @@ func RunC10(t *testing.T, tape *Tape) *Outcome {
 						mism = append(mism, mismatch{si, s.Def, s.Kind, got, want, after, afterDetail})
 						d.desync = true
 					}
+					evalSinceCancel = true
 					if cancels > 0 {
 						usesAfterCancel++
 					}
@@ -395,6 +404,7 @@ func RunC10(t *testing.T, tape *Tape) *Outcome {
 						mism = append(mism, mismatch{si, s.Def, s.Kind, got, want, after, afterDetail})
 						d.desync = true
 					}
+					evalSinceCancel = true
 					if cancels > 0 {
 						usesAfterCancel++
 					}
@@ -405,7 +415,11 @@ func RunC10(t *testing.T, tape *Tape) *Outcome {
 					want := d.model(s.Arg)
 					got := callHostFn(d.hostFn.(func(int) int), s.Arg)
 					if got != fmt.Sprint(want) {
-						mism = append(mism, mismatch{si, s.Def, "use-host", got, want, after, afterDetail})
+						aft := after
+						if after == "cancel" && evalSinceCancel {
+							aft = "cancel+evaluation"
+						}
+						mism = append(mism, mismatch{si, s.Def, "use-host", got, want, aft, afterDetail})
 						d.desync = true
 					}
 					if cancels > 0 {
@@ -485,7 +499,13 @@ func RunC10(t *testing.T, tape *Tape) *Outcome {
 					if s.CK != xExpired {
 						r.Rearm(cancel, int64(s.K))
 					}
-					_, err := it.EvalWithContext(ctx, src)
+					var err error
+					if s.CK == xBusy && d.kind != dGlobalCounter && preBusy != nil && s.K%2 == 0 {
+						o.FaultFired["cancelled-execution-of-a-program-compiled-before-the-definitions"]++
+						_, err = it.ExecuteWithContext(ctx, preBusy)
+					} else {
+						_, err = it.EvalWithContext(ctx, src)
+					}
 					r.Disarm()
 					cancel()
 					cancels++
@@ -524,6 +544,7 @@ func RunC10(t *testing.T, tape *Tape) *Outcome {
 						i1fail = append(i1fail, fmt.Sprintf("step %d (%s): EvalWithContext returned %v", si, cancelKindName[s.CK], err))
 					}
 					after = "cancel"
+					evalSinceCancel = false
 					afterDetail = cancelKindName[s.CK]
 				}
 			}
